@@ -77,7 +77,7 @@ def build() -> Check:
             for e in user_events(t, "strategy"):
                 n_strat += 1
                 av = e.data.get("arg_values") or []
-                if len(av) < 2 or not attempt_expr_ok(av[1], t.pc):
+                if len(av) < 2 or not attempt_expr_ok(av[1], t.pc, st == ABSENT):
                     bad1.append((f"retry strategy called with attempt={av[1].key() if len(av) > 1 else None}", t))
                 if e.data.get("outcome") != "return":
                     continue
@@ -183,6 +183,10 @@ def build() -> Check:
                     bad.append((f"pre-jitter delay {a.key() if a else None} is not capped by the configured maximum", t))
                 if isinstance(a, Sym) and "attempts_made" not in a.key():
                     bad.append(("backoff does not depend on the attempt number", t))
+                # "follow the configured backoff": the delay before the cap is initial * rate ** (attempts made - 1) - an exponent that is clamped, scaled or
+                # shifted changes the configured curve for slowly growing rates long before the cap is reached (r6_C12: exponent limited to 32)
+                elif isinstance(a, Sym) and "** (attempts_made - 1)" not in a.key().replace("((attempts_made - 1))", "(attempts_made - 1)"):
+                    bad.append((f"the backoff power in the pre-jitter delay {a.key()[:160]} does not have the exponent (attempts_made - 1)", t))
         ck.floor(f"{factory}_retry_paths", n_retry, 1)
         ck.ob("R4.packaged-strategy-shape", c, not bad, (bad[0][0] + ": " + "; ".join(f"{k}->{v}" for k, v in bad[0][1].pc)) if bad else f"{n_retry} retry paths")
     # R4 the message filters of the packaged strategy: a plain string is a literal substring, a compiled pattern is a pattern. Handing a string that came
